@@ -3,7 +3,9 @@
 KINDS = ["EXECUTE", "PERMIT", "BLOCK", "FAILURE", "DEFER", "UNKNOWN", "RAISE"]
 # further exception types an agent may raise: whatever it is, the request must come back blocked
 RAISE_KINDS = {"RAISE": RuntimeError, "RAISE_TIMEOUT": TimeoutError, "RAISE_VALUE": ValueError, "RAISE_OS": ConnectionRefusedError,
-               "RAISE_STOP": StopIteration, "RAISE_KEY": KeyError, "RAISE_ASSERT": AssertionError}
+               "RAISE_STOP": StopIteration, "RAISE_KEY": KeyError, "RAISE_ASSERT": AssertionError,
+               # no message at all (str(e) == ''): a bare `raise TimeoutError`, a failed bare assert
+               "RAISE_NOMSG": TimeoutError, "RAISE_NOMSG_ASSERT": AssertionError}
 # verdict strings outside the vocabulary ("any unknown verdict ... yields blocked"): empty, fragments and extensions of the real words
 UNKNOWN_KINDS = ["", "P", "PERM", "MIT", "EXEC", "ALLOW", "PERMITTED", "EXECUTE_NOW", "OK"]
 LOGICS = ["AND", "OR", "MAJORITY", "UNANIMOUS", "EXECUTOR_PRIORITY", "ASSESSOR_PRIORITY"]
@@ -16,22 +18,29 @@ class Stub:
         self.calls = 0
         self.kind = "EXECUTE"
         self.conf = 0.9
+        self.delay = 0.0        # seconds of real time this agent takes to answer (a slow model call)
 
     def express(self, signal):
         from operon_ai.core.types import ActionProtein
         self.calls += 1
         self.budget.consume(1, "stub")
+        if self.delay:
+            import time
+            time.sleep(self.delay)
         if self.kind in RAISE_KINDS:
+            if self.kind.startswith("RAISE_NOMSG"):
+                raise RAISE_KINDS[self.kind]()
             raise RAISE_KINDS[self.kind]("agent crashed")
         return ActionProtein(self.kind, "payload-of-%s" % self.name, self.conf)
 
 
-def make_loop(logic, breaker, threshold=5, timeout=60.0, cache=True):
+def make_loop(logic, breaker, threshold=5, timeout=60.0, cache=True, agent_timeout=None):
     from operon_ai.state.metabolism import ATP_Store
     from operon_ai.topology.loops import CoherentFeedForwardLoop, GateLogic
     budget = ATP_Store(100000, silent=True)
     loop = CoherentFeedForwardLoop(budget=budget, gate_logic=getattr(GateLogic, logic), enable_circuit_breaker=breaker,
-                                   failure_threshold=threshold, recovery_timeout_seconds=timeout, enable_cache=cache, silent=True)
+                                   failure_threshold=threshold, recovery_timeout_seconds=timeout, enable_cache=cache, silent=True,
+                                   **({} if agent_timeout is None else {"timeout_seconds": agent_timeout}))
     ex, ass = Stub("stub-executor", budget), Stub("stub-assessor", budget)
     loop.executor, loop.assessor = ex, ass
     return loop, ex, ass, budget
